@@ -67,6 +67,9 @@ type caseData struct {
 	unwrapped bool
 	// oldFiles: what the destination held before the write path ran (paths that populate it themselves)
 	oldFiles map[string]string
+	// srcWrap, when set, puts the simulator's wrapper in front of the source bucket: opening and
+	// reading source objects become scheduling and fault points ("src:" positions)
+	srcWrap func(storage.ReadBucket) storage.ReadBucket
 }
 
 func init() {
@@ -111,11 +114,17 @@ func srcBucket(c *caseData) storage.ReadBucket {
 		if err != nil {
 			panic(err)
 		}
+		if c.srcWrap != nil {
+			return c.srcWrap(b)
+		}
 		return b
 	}
 	b, err := storagemem.NewReadBucket(c.files)
 	if err != nil {
 		panic(err)
+	}
+	if c.srcWrap != nil {
+		return c.srcWrap(b)
 	}
 	return b
 }
@@ -486,7 +495,7 @@ type positionPolicy struct {
 }
 
 func (p *positionPolicy) Decide(s *sched.Sim, op sched.Op) sched.Decision {
-	if !strings.HasPrefix(op.Path, "dst:") {
+	if !strings.HasPrefix(op.Path, "dst:") && !(strings.HasPrefix(op.Path, "src:") && (op.Kind == "get" || op.Kind == "read")) {
 		return sched.Decision{}
 	}
 	k := op.PosKey()
@@ -685,6 +694,21 @@ func diffState(want, got map[string]string) string {
 	return strings.Join(out, "; ")
 }
 
+// faultKindsAt: the fault kinds applicable at a recorded position - a source position can fail to open or
+// to deliver its next chunk, a destination position as faultKindsFor says.
+func faultKindsAt(c *caseData, p pos) []string {
+	if strings.Contains(p.key, "|src:") {
+		switch p.kind {
+		case "get":
+			return []string{"get-err"}
+		case "read":
+			return []string{"read-err"}
+		}
+		return nil
+	}
+	return faultKindsFor(c, p.kind)
+}
+
 func faultKindsFor(c *caseData, kind string) []string {
 	if (c.wp.cli || c.wp.rawDst) && kind == "close" && !c.atomic {
 		return []string{"close-err"}
@@ -829,6 +853,14 @@ func run(tp *tape.Tape, env *engine.Env) *engine.Outcome {
 		s.Event("case wp=%s dst=%s atomic=%v par=%d files=%v", c.wp.name, c.dstKind, c.atomic, c.par, c.paths)
 	}
 
+	if !c.wp.cli && tp.Draw("srcfaults", 3) == 2 {
+		// the READ side can fail too: opening a source object, or its k-th chunk while the destination
+		// object is half written
+		c.srcWrap = func(b storage.ReadBucket) storage.ReadBucket {
+			return &simfs.Bucket{S: s, U: simfs.ReadOnly(b), Name: "src", YieldReads: true}
+		}
+		s.Probe("source-side-fault-positions")
+	}
 	counters := map[string]int{}
 	refErr, E, refPol := r.exec(c, true, nil)
 	if refErr != nil {
@@ -843,7 +875,7 @@ func run(tp *tape.Tape, env *engine.Env) *engine.Outcome {
 	}
 	var all []inj
 	for _, p := range refPol.seen {
-		for _, k := range faultKindsFor(c, p.kind) {
+		for _, k := range faultKindsAt(c, p) {
 			all = append(all, inj{p, k})
 		}
 	}
@@ -877,7 +909,7 @@ func run(tp *tape.Tape, env *engine.Env) *engine.Outcome {
 		if len(refPol.seen) > 1 && tp.Draw("pair", pairOdds) == 1 {
 			// a second fault somewhere else
 			q := refPol.seen[tp.Draw("pairpos", len(refPol.seen))]
-			if ks := faultKindsFor(c, q.kind); len(ks) > 0 && q.key != in.p.key {
+			if ks := faultKindsAt(c, q); len(ks) > 0 && q.key != in.p.key {
 				inject[q.key] = sched.Decision{Fault: ks[tp.Draw("pairkind", len(ks))]}
 			}
 		}
@@ -1059,7 +1091,7 @@ func run(tp *tape.Tape, env *engine.Env) *engine.Outcome {
 		var inject map[string]sched.Decision
 		if tp.Draw("cancelplusfault", 2) == 1 {
 			q := refPol.seen[tp.Draw("cancelfaultpos", len(refPol.seen))]
-			if ks := faultKindsFor(c, q.kind); len(ks) > 0 && q.key != p.key {
+			if ks := faultKindsAt(c, q); len(ks) > 0 && q.key != p.key {
 				inject = map[string]sched.Decision{q.key: {Fault: ks[tp.Draw("cancelfaultkind", len(ks))]}}
 			}
 		}
